@@ -19,7 +19,8 @@ RULE = ('each case = 40-300 steps: peer DATA sized against the shadow windows (e
         'overrun/last delivery judged; distinct = hash of step list')
 MINIMA = {'window_queries_checked': 20000, 'data_fit_accepted': 5000, 'data_exact_fit_accepted': 300,
           'data_overrun_rejected': 300, 'raising_increment_checked': 300, 'iws_ack_applied': 300,
-          'empty_data_on_exhausted_or_negative_window': 500, 'empty_data_on_negative_window': 100}
+          'empty_data_on_exhausted_or_negative_window': 500, 'empty_data_on_negative_window': 100,
+          'iws_changes_overlapping_in_flight': 300}
 MAXW = 2 ** 31 - 1
 
 
@@ -354,8 +355,11 @@ def run_case(idx, rng, tier, rep):
             d.account_out(res)
             rep.count('acks_done')
         elif r < 0.86:
-            if sh.iws_pending:
+            # up to three INITIAL_WINDOW_SIZE changes may be in flight: each ACK applies exactly the oldest one
+            if len(sh.iws_pending) >= 3:
                 continue
+            if sh.iws_pending:
+                rep.count('iws_changes_overlapping_in_flight')
             cands = [0, 1, 100, 1000, 16384, 65535, 65536, 2 ** 20, MAXW]
             v = rng.choice(cands)
             if any(wv + (v - sh.iws_acked) > MAXW for wv in sh.stream.values()):
